@@ -37,6 +37,10 @@ struct HScript {
 struct Ctx {
 	tracer: Tracer,
 	scripts: Mutex<HashMap<u64, HScript>>,
+	/// stall scenario: the handler tells the driver that the connection's outbound side is saturated, the driver tells the
+	/// handler when `stopped()` has resolved
+	stall_full: tokio::sync::Notify,
+	stall_go: tokio::sync::Notify,
 }
 
 async fn pause(n: u8) {
@@ -84,6 +88,49 @@ fn module(ctx: Arc<Ctx>) -> RpcModule<Arc<Ctx>> {
 			}
 		}
 		let mut sent = 0u64;
+		if script.first == "stall" {
+			// saturate the connection (the peer has stopped reading): padded notifications until the queue reports Full
+			let pad = "p".repeat(64 * 1024);
+			for _ in 0..10_000 {
+				let n = sent + 1;
+				let raw = serde_json::value::to_raw_value(&json!({"n": n, "pad": pad})).unwrap();
+				match sinks[0].try_send(SubscriptionMessage::from(raw)) {
+					Ok(()) => {
+						// (logged after the fact: a Full attempt is not a send)
+						t.ev(json!({"ev": "HSendStart", "k": k, "n": n, "how": 2}));
+						t.ev(json!({"ev": "HSendEnd", "k": k, "n": n, "ok": true}));
+						sent += 1;
+					}
+					Err(jsonrpsee_server::TrySendError::Full(_)) => {
+						// give the writer a chance to move what it can, then see whether it is really stuck
+						tokio::time::sleep(Duration::from_millis(5)).await;
+						let raw = serde_json::value::to_raw_value(&json!({"n": n, "pad": pad})).unwrap();
+						match sinks[0].try_send(SubscriptionMessage::from(raw)) {
+							Ok(()) => {
+								t.ev(json!({"ev": "HSendStart", "k": k, "n": n, "how": 2}));
+								t.ev(json!({"ev": "HSendEnd", "k": k, "n": n, "ok": true}));
+								sent += 1;
+							}
+							_ => break,
+						}
+					}
+					Err(_) => break,
+				}
+			}
+			ctx.stall_full.notify_one();
+			ctx.stall_go.notified().await;
+			// the server has reported `stopped`: the sink must say closed, and a send started now must be refused as closed
+			let b = sinks[0].is_closed();
+			t.ev(json!({"ev": "HIsClosed", "k": k, "b": b, "after_stopped": true}));
+			let n = sent + 1;
+			let raw = serde_json::value::to_raw_value(&json!({"n": n, "pad": "late"})).unwrap();
+			t.ev(json!({"ev": "HSendStart", "k": k, "n": n, "how": 2}));
+			match sinks[0].try_send(SubscriptionMessage::from(raw)) {
+				Err(jsonrpsee_server::TrySendError::Closed(_)) => t.ev(json!({"ev": "HSendEnd", "k": k, "n": n, "ok": false})),
+				Ok(()) => t.ev(json!({"ev": "HSendEnd", "k": k, "n": n, "ok": true})),
+				Err(_) => t.ev(json!({"ev": "HSendNotRefused", "k": k, "n": n, "why": "Full: the channel of a stopped connection is still open"})),
+			}
+		}
 		for op in &script.ops {
 			match op {
 				HOp::Send(how) => {
@@ -190,12 +237,70 @@ pub fn run(nscen: usize, out_path: &str) {
 	let mut outf = crate::common::Out::create(out_path);
 	for sc in 0..nscen {
 		let mut rng = rng_for(sc, 4);
-		let evs = rt.block_on(scenario(&mut rng, sc));
+		let evs = if sc % 15 == 14 { rt.block_on(stall_scenario(sc)) } else { rt.block_on(scenario(&mut rng, sc)) };
 		for e in evs {
 			outf.raw(&e);
 		}
 	}
 	outf.finish();
+}
+
+/// One connection whose peer stops reading after the subscription was accepted; the handler saturates the outbound side; the
+/// server is told to stop.  `stopped()` may only resolve when the connection is really over - and once it has resolved the
+/// subscription's sink must report closed and refuse sends (C04: "closed ... by the server stopping").  While the peer merely
+/// sits there the unchanged server keeps waiting for its writer; the scenario then lets the peer go away.
+async fn stall_scenario(sc: usize) -> Vec<Value> {
+	let tracer = Tracer::default();
+	let ctx = Arc::new(Ctx { tracer: tracer.clone(), scripts: Mutex::new(HashMap::new()), stall_full: tokio::sync::Notify::new(), stall_go: tokio::sync::Notify::new() });
+	ctx.scripts.lock().insert(1, HScript { first: "stall", ops: vec![], closing: false });
+	let methods: jsonrpsee_server::Methods = module(ctx.clone()).into();
+	let rig = Rig::with_methods(RigCfg { max_subs: 1, buf_cap: 2, ..Default::default() }, Default::default(), methods);
+	tracer.ev(json!({"ev": "Reset", "sc": sc, "cap": 1, "stall": true}));
+	let (stop, handle) = jsonrpsee_server::stop_channel();
+	let svc = rig.svc(stop.clone());
+	let Ok(ws) = WsPeer::connect_with_pipe(svc, stop, handle.clone(), &[], 64 * 1024).await else {
+		tracer.ev(json!({"ev": "End"}));
+		return tracer.take();
+	};
+	let WsPeer { mut tx, mut rx, stop: stop_handle, .. } = ws;
+	tracer.ev(json!({"ev": "SendSub", "k": 1}));
+	let _ = tx.send_text(r#"{"jsonrpc":"2.0","id":101,"method":"sub","params":[1]}"#).await;
+	let _ = tx.flush().await;
+	// the peer reads the response that accepts the subscription - and nothing after it
+	let mut data = Vec::new();
+	if rx.receive_data(&mut data).await.is_ok() {
+		let v: Value = serde_json::from_slice(&data).unwrap_or(Value::Null);
+		if v.get("result").is_some() {
+			tracer.ev(json!({"ev": "Recv", "c": 1, "f": {"t": "resp", "k": 1}}));
+		}
+	}
+	let _ = tokio::time::timeout(WAIT, ctx.stall_full.notified()).await;
+	tracer.ev(json!({"ev": "Stop", "c": 1}));
+	let _ = handle.stop();
+	drop(stop_handle);
+	// does `stopped()` resolve while the peer is still there, not reading?
+	let early = tokio::time::timeout(Duration::from_millis(1400), handle.clone().stopped()).await.is_ok();
+	if !early {
+		// it does not (the writer is still owed to the peer): the peer gives up
+		tracer.ev(json!({"ev": "PeerClose", "c": 1}));
+		drop(tx);
+		drop(rx);
+		tracer.ev(json!({"ev": "EofPeerClosed", "c": 1}));
+		let _ = tokio::time::timeout(WAIT, handle.clone().stopped()).await;
+	}
+	tracer.ev(json!({"ev": "ConnStopped", "c": 1, "peer_still_connected": early}));
+	ctx.stall_go.notify_one();
+	for _ in 0..200 {
+		if ctx.scripts.lock().is_empty() && tracer.0.lock().iter().any(|e| e["ev"] == "HReturn") {
+			break;
+		}
+		tokio::time::sleep(Duration::from_millis(5)).await;
+	}
+	if early {
+		tracer.ev(json!({"ev": "EofPeerClosed", "c": 1}));
+	}
+	tracer.ev(json!({"ev": "End"}));
+	tracer.take()
 }
 
 fn conn_of(k: u64) -> u64 {
@@ -205,7 +310,7 @@ fn conn_of(k: u64) -> u64 {
 async fn scenario(rng: &mut StdRng, sc: usize) -> Vec<Value> {
 	let tracer = Tracer::default();
 	let cap: u32 = rng.random_range(1..4);
-	let ctx = Arc::new(Ctx { tracer: tracer.clone(), scripts: Mutex::new(HashMap::new()) });
+	let ctx = Arc::new(Ctx { tracer: tracer.clone(), scripts: Mutex::new(HashMap::new()), stall_full: tokio::sync::Notify::new(), stall_go: tokio::sync::Notify::new() });
 	for k in 1..=3u64 {
 		ctx.scripts.lock().insert(k, gen_script(rng));
 	}
@@ -282,6 +387,7 @@ async fn peer(rig: Arc<Rig>, tracer: Tracer, c: u64, ks: Vec<u64>, unsubs: Vec<(
 						let k = ids2.lock().iter().find(|(_, s)| *s == sid).map(|(k, _)| *k as i64).unwrap_or(-1);
 						match &v["params"]["result"] {
 							Value::Number(n) => json!({"t": "notif", "k": k, "n": n}),
+							Value::Object(o) if o.contains_key("n") => json!({"t": "notif", "k": k, "n": o["n"]}),
 							_ => json!({"t": "close", "k": k}),
 						}
 					};
